@@ -28,7 +28,7 @@ ASSUMPTIONS = [
     "unique(): two cells are the same key iff both missing or both non-missing and == (so 0.0 and -0.0 are one key)",
 ]
 REACH = {"quick": {"op:unique": 300, "op:filter": 300, "op:drop_na": 100, "op:slice": 100, "unique:na-key": 50,
-                   "unique:float-hostile-with-na": 3, "nrow:0": 50}}
+                   "unique:float-hostile-with-na": 3, "nrow:0": 50, "slice:negative-positions": 100, "drop_na:after-inplace-edit": 100}}
 
 OPS = ["filter", "filter", "filter_out", "slice", "slice_off", "head", "tail", "drop_na", "sample", "unique", "unique", "unique"]
 
@@ -68,8 +68,18 @@ def generate(rng, tier):
             idx = [rng.randrange(nrow) for _ in range(m)]
             if rng.random() < 0.4:
                 idx = sorted(set(idx))
+            r2 = rng.random()
+            if r2 < 0.15:
+                k = rng.randint(1, nrow)
+                idx = list(range(-k, 0))                      # a run of negative positions ending at the last row
+            elif r2 < 0.25:
+                idx = [rng.randrange(-nrow, nrow) for _ in range(m)]   # negative positions count from the end
+            elif r2 < 0.3 and nrow >= 2:
+                idx = [-1, 0, 1][:nrow + 1]
         else:
             idx = [rng.randrange(nrow) for _ in range(m)]
+            if rng.random() < 0.2:
+                idx = [rng.randrange(-nrow, nrow) for _ in range(m)]
         case["idx"] = idx
         case["form"] = rng.choice(["list", "ndarray", "vector"])
     elif op in ("head", "tail", "sample"):
@@ -77,6 +87,8 @@ def generate(rng, tier):
     elif op == "drop_na":
         k = rng.randint(0, len(cols))
         case["cols"] = rng.sample(cols, k)
+        if case["cols"] and nrow and rng.random() < 0.4:
+            case["edit"] = (rng.choice(case["cols"]), rng.randrange(nrow), rng.random() < 0.6)
     elif op == "unique":
         r = rng.random()
         if r < 0.15:
@@ -169,10 +181,11 @@ def execute(case):
             elif form == "vector": arg = di.Vector(idx, int) if idx else di.Vector([], int)
             else: arg = idx
             out = getattr(df, op)(rows=arg)
+            if any(i < 0 for i in idx): res.cls("slice:negative-positions")
             if op == "slice":
-                expected = idx
+                expected = [i % nrow for i in idx] if nrow else []
             else:
-                drop = set(idx)
+                drop = {i % nrow for i in idx} if nrow else set()
                 expected = [i for i in range(nrow) if i not in drop]
         elif op in ("head", "tail"):
             n = case["n"]
@@ -190,6 +203,24 @@ def execute(case):
             expected = rids
         elif op == "drop_na":
             cols = case["cols"]
+            ed = case.get("edit")
+            if ed and nrow:
+                # same-object history: ask for missing values, put / remove a missing value in place, ask again
+                col, pos, to_na = ed
+                try:
+                    df.drop_na(col); dict.__getitem__(df, col).tolist(); df.to_list_of_dicts()
+                except Exception:
+                    pass
+                cv = dict.__getitem__(df, col)
+                arr = np.asarray(cv)
+                if to_na:
+                    arr[pos % nrow] = cv.na_value if arr.dtype.kind in "OfMm" or str(arr.dtype).startswith("StringDType") or arr.dtype.kind == "U" else arr[pos % nrow]
+                else:
+                    src = [i for i in range(nrow) if pre[col][i] != canon.NA]
+                    if src: arr[pos % nrow] = arr[src[0]]
+                pre = canon.frame_cells(df)
+                pre_rows = list(zip(*[pre[n] for n in names])) if names else []
+                res.cls("drop_na:after-inplace-edit")
             out = df.drop_na(*cols)
             expected = [i for i in range(nrow) if not any(pre[c][i] == canon.NA for c in cols)]
             if any(pre[c][i] == canon.NA for c in cols for i in range(nrow)):
